@@ -5,7 +5,9 @@
 
 package starkcurve
 
-import "math/big"
+import (
+	"math/big"
+)
 
 var _ = big.NewInt
 
